@@ -21,6 +21,7 @@ func init() {
 			{"C09.R4", "q", "block size agreement", c09r4},
 			{"C09.R5", "q", "resynchronisation through the checked reader", c09r5},
 			{"C09.R6", "q", "uniform resynchronisation", c09r6},
+			{"C04.L4", "q", "shared: a buffered record is handed out as a copy (the queued one is written later)", c04l4},
 		},
 	})
 }
@@ -360,7 +361,23 @@ func c09r4(c *Ctx) {
 		okD := false
 		for _, call := range f.CallsTo("bufio.Reader.Discard") {
 			if prog.MentionsConst(info, call.Expr, "store.PADDING") {
-				okD = true
+				// PADDING - tail is a whole block when tail == 0: the discard must be skipped then (or reduced modulo PADDING)
+				guarded := false
+				for _, a := range f.GuardsAt(call.Expr) {
+					if a.Op == token.NEQ && a.Y != nil {
+						if v, isC := prog.ConstInt(info, a.Y); isC && v == 0 {
+							guarded = true
+						}
+					}
+				}
+				mod := false
+				ast.Inspect(call.Expr, func(y ast.Node) bool {
+					if be, ok := y.(*ast.BinaryExpr); ok && (be.Op == token.REM || be.Op == token.AND) {
+						mod = true
+					}
+					return true
+				})
+				okD = guarded || mod
 			}
 		}
 		c.check(okT && okD, R, f.Key+": skips padding to the next block", f.Pos(), "tail = size & "+itoa(int(pad-1))+"; Discard(PADDING - tail)", "the streaming reader does not skip exactly the padding that the writer adds")
